@@ -244,7 +244,7 @@ def generic_step(c, pkg, op, lens, sym_limits=True, ntape=6, callstack_sym=True)
     F = pkg.functions
     name = op if isinstance(op, str) else f'NOP{op}'
     from sx import core as _core
-    for _k in _core.ABSTRACT:                # sound over-approximations of values (only shapes matter here)
+    for _k in ('nonlinear', 'digits', 'algebra', 'floats'):   # sound over-approximations of values (only shapes matter)
         _core.ABSTRACT[_k] = True
     tape_data = c.bytes('tape', ntape)
     if name in ALGEBRA_OPS or name == 'OP_TAPROOT':
